@@ -252,7 +252,9 @@ class ParseMCNPCell:
             elif 'trcl' in elt:
                 keywords['trcl'] = self.parse_trcl_kw(elt, kw_list)
             elif 'u' in elt:
-                keywords['u'] = int(float(kw_list.pop()))
+                # a negative universe number (U=-n) is MCNP's hint that the
+                # cell is not truncated by its container: it is universe n
+                keywords['u'] = abs(int(float(kw_list.pop())))
             elif 'rho' in elt:
                 # only relevant for LIKE n BUT cells
                 keywords['density'] = kw_list.pop()
